@@ -3110,7 +3110,7 @@ class Wallet(object):
         for kb in key_balance_list:
             if kb['id'] in self._key_objects:
                 self._key_objects[kb['id']]._balance = kb['balance']
-        self.session.bulk_update_mappings(DbKey, key_balance_list)
+        self.session.bulk_update_mappings(DbKey, [{'id': kb['id'], 'balance': kb['balance']} for kb in key_balance_list])
         self._commit()
         _logger.info("Got balance for %d key(s)" % len(key_balance_list))
         return self._balances
